@@ -218,4 +218,25 @@ theorem rnd64_eq (x : Rat) (hx : x ≠ 0) :
   rw [exponentOk_of_ne_zero x hx]
   rfl
 
+/-! ## correctly rounded square root (executable; used by the driver for the bit-for-bit comparison of `math.Sqrt`) -/
+
+/-- ⌊√m⌋ for m < 2^(2·bits), bit by bit from the top -/
+def isqrtBits (m : Nat) : Nat → Nat → Nat
+  | 0, r => r
+  | bit + 1, r => let t := r + 2 ^ bit; isqrtBits m bit (if t * t ≤ m then t else r)
+
+/-- the binary64 nearest to √v (ties to even) for a positive rational v in the normal range: with `2^e ≤ √v < 2^(e+1)` and
+    `ulp = 2^(e−52)`, `n = ⌊√(v/ulp²)⌋` has 53 bits and the result is `n·ulp` or `(n+1)·ulp` according to the side of
+    `(n + ½)²` on which `v/ulp²` lies -/
+def sqrt64 (v : Rat) : Rat :=
+  if v ≤ 0 then 0 else
+  let e : Int := (expOf v) / 2          -- Int division rounds towards −∞ for a positive divisor
+  let ulp := pow2 e * c52
+  let q := v / (ulp * ulp)
+  let n := isqrtBits q.floor.toNat 54 0
+  let mid : Rat := ((n : Rat) + 1 / 2) * ((n : Rat) + 1 / 2)
+  let n' : Nat := if q < mid then n else if mid < q then n + 1 else if n % 2 = 0 then n else n + 1
+  (n' : Rat) * ulp
+
+
 end Bmc.FloatModel
